@@ -594,12 +594,12 @@ theorem lg_ioCb (st : St) (s : PollSlot) : LogExt st (ioCb st s) := by
   · exact LogExt.refl _
 
 
-theorem lg_ioLoop (fuel : Nat) : ∀ (st : St) (idx : Nat), LogExt st (ioLoop fuel st idx) := by
+theorem lg_ioLoopT (fuel : Nat) : ∀ (st : St) (idx : Nat), LogExt st (ioLoopT fuel st idx).1 := by
   induction fuel with
-  | zero => intro st idx; unfold ioLoop; exact lg_outOfFuel st
+  | zero => intro st idx; unfold ioLoopT; exact lg_outOfFuel st
   | succ n ih =>
     intro st idx
-    unfold ioLoop
+    unfold ioLoopT
     split
     · exact LogExt.refl _
     · split
@@ -610,6 +610,8 @@ theorem lg_ioLoop (fuel : Nat) : ∀ (st : St) (idx : Nat), LogExt st (ioLoop fu
           · exact ih _ _
           · exact (lg_ioCb _ _).trans (ih _ _)
 
+
+theorem lg_ioLoop (fuel : Nat) (st : St) (idx : Nat) : LogExt st (ioLoop fuel st idx) := lg_ioLoopT fuel st idx
 
 theorem lg_foldl_raiseSig (l : List Int) : ∀ st : St, LogExt st (l.foldl raiseSig st) := by
   induction l with
